@@ -108,6 +108,30 @@ fn run_prop(prop: &str, tier: Tier, seed: u64) -> i32 {
             props::seq::c15(&ctx);
             ctx.finish(tier.pick(40, 400))
         }
+        "C06" => {
+            let ctx = Ctx::new(
+                "C06",
+                tier,
+                seed,
+                "exploration",
+                "E1 histories (appends, batches, rejected operations, consuming reads, peeks, counts) with 1..n reopen events (fresh process via clean exit, or drop+rebuild in the same process) and wall-clock regression between lifetimes (earlier WAL files renamed to future timestamps); payloads 0 B .. 25 MiB. Oracle: StrictlyAtOnce - the FIFO model ignores reopen events entirely (stream, order, remaining entries, counts); AtLeastOnce - the cursor may move back, never forward (candidate-set model, contiguity after resynchronisation). Non-trivial = a consuming read returns data after a reopen and the history has a multi-unit block, a tail cursor, an allocated-but-empty block, >=2 reopens or a clock regression.",
+                &["clean shutdown = every append returned, then normal process exit (or drop); process-level persistence (page cache) is assumed, power loss is C10's subject"],
+            );
+            props::seq::c06(&ctx);
+            ctx.finish(tier.pick(40, 400))
+        }
+        "C17" => {
+            let ctx = Ctx::new(
+                "C17",
+                tier,
+                seed,
+                "exploration",
+                "histories over append / mark_topic_clean / mark_topic_dirty / topic_is_clean / sleep{1,5,20,250 ms} / reopen (fresh process or in-process) on 1-3 topics; after every reopen every topic is probed. Oracle: boolean per topic (default clean; append => dirty; marks set it; reopen keeps it). Non-trivial = a reopen whose preceding calls changed a marker.",
+                &["marker persistence is asynchronous in the engine; while the known finding C17-marker-lost-on-immediate-exit is open the main search waits 250 ms (50x the coalescing window) before a reopen that follows a marker change"],
+            );
+            props::seq::c17(&ctx);
+            ctx.finish(tier.pick(40, 400))
+        }
         other => {
             eprintln!("unknown property {}", other);
             2
